@@ -55,11 +55,20 @@ fn coeffs(rng: &mut Rng, deg: usize) -> Vec<f64> {
 
 fn interval(rng: &mut Rng, kind: u64) -> (f64, f64) {
     match kind {
-        // dyadic, a < b
+        // dyadic, a < b — one in five of them of an extreme width (2^-70..2^-34 or 2^8..2^16): a guard or tolerance
+        // in absolute units shows only there
         0 => {
             let a = rng.range(-32, 24) as f64 / 8.0;
             let w = rng.range(1, 40) as f64 / 8.0;
-            (a, a + w)
+            match rng.below(10) {
+                0 => {
+                    let a0 = if rng.chance(1, 2) { 0.0 } else { a / 64.0 };
+                    let w0 = 2f64.powi(-(rng.range(34, 70) as i32));
+                    if rng.chance(1, 2) { (a0, a0 + w0) } else { (a0 + w0, a0) }
+                }
+                1 => (a, a + w * 2f64.powi(rng.range(8, 16) as i32)),
+                _ => (a, a + w),
+            }
         }
         // reversed
         1 => {
